@@ -1063,6 +1063,9 @@ decl(struct scope *s, struct func *f)
 				scopeputdecl(s, mkdecl(name, DECLTYPE, t, tq, LINKNONE));
 			else if (!typesame(prior->type, t) || prior->qual != tq)
 				error(&tok.loc, "typedef '%s' redefined with different type", name);
+			/* the size expressions of a variably modified type are evaluated when the typedef is reached (6.7.8p3) */
+			if (f && t->prop & PROPVM)
+				funcvla(f, t);
 			break;
 		case DECLOBJECT:
 			if (t == &typevoid)
